@@ -16,7 +16,7 @@ ASSUMPTIONS = ["no primitive law is used by the C01 theorems (they hold for arbi
 def build(ctx, rounds):
     cases = []
     for _ in range(rounds):
-        valid = J.valid_cases(ctx, spell_styles=(0, 1, 2, 3, 4), quick_keys=(ctx.tier == "quick"))
+        valid = J.valid_cases(ctx, spell_styles=(0, 1, 2, 3, 4, 5), quick_keys=(ctx.tier == "quick"))
         cases += valid
         # every token also through the OTHER consuming entry point that accepts its form: plain RFC 7515 tokens handed to
         # the RFC 7797 functions (which delegate), with the same expectations
